@@ -76,6 +76,8 @@ def bind_repo(need_codec=True):
         sys.modules["ethosu.mlw_codec"] = mod
         ethosu.mlw_codec = mod
     import ethosu.vela
+    import ethosu.vela.vela  # noqa: warm every module before workers fork
+    import ethosu.vela.api  # noqa
 
     f = os.path.realpath(ethosu.vela.__file__)
     if not f.startswith(os.path.realpath(REPO) + os.sep):
@@ -135,7 +137,7 @@ def unjson(x):
 
 
 class Ctx:
-    MAX_REPLAYS = 5
+    MAX_REPLAYS = 40
 
     def __init__(self, pid, tier, seed):
         self.pid = pid
@@ -211,6 +213,12 @@ class Ctx:
         print("%s tier=%s seed=%d level=%s wall=%.1fs violations=%d known=%d %s" % (
             self.pid, self.tier, self.seed, level, wall, len(self.violations), len(self.known_hit), json.dumps(brief)), flush=True)
         if self.violations:
+            import collections as _c
+            groups = _c.Counter(k.split("|")[0] for k, _, _ in self.violations)
+            print("violation keys by kind: %s" % dict(groups), flush=True)
+            if os.environ.get("VERIF_LIST_KEYS"):
+                for k, w, _ in self.violations:
+                    print("  KEY %s" % k)
             return 1
         if self.inconclusive:
             print("INCONCLUSIVE property=%s reason=%s" % (self.pid, self.inconclusive), flush=True)
